@@ -125,7 +125,36 @@ theorem reset_causes (st : St) :
     · simp [nextQuery, hr]
   · simp [stop, nextQuery]
 
+/-- `rtr_stop` once the thread has ended is its two parts in sequence -/
+theorem stop_split (st : St) : stop st = stopFinish (stopBegin st) := rfl
+
+/-- **stop on a running thread**: `rtr_stop` requests the stop (`stopBegin`), waits for the
+    state-machine thread, and only then closes, forgets the session and purges (`stopFinish`).
+    Whatever the thread still does in between (`f` — e.g. complete the synchronisation whose End of
+    Data it had already received, which stores a session, a serial and a time stamp), afterwards
+    the next query is a Reset Query and no time stamp is left. -/
+theorem stop_live_reset (st : St) (f : St → St) :
+    nextQuery (stopFinish (f (stopBegin st))).ss = none ∧ (stopFinish (f (stopBegin st))).ss.lastUpdate = 0 ∧
+    (stopFinish (f (stopBegin st))).c.state = .closed := ⟨rfl, rfl, rfl⟩
+
+/-- **stop/start cycle**: the first iteration of the run that `rtr_start` begins after such a stop
+    (the socket is not initialised again) opens the transport and goes to RTR_RESET — the state that
+    sends the Reset Query (`reset_query`) — or to the transport-error state if open() fails. -/
+theorem restart_sends_reset_query (st : St) (f : St → St) (steps fuel : Nat) :
+    fsmStart (steps + 1) fuel (stopFinish (f (stopBegin st))) =
+      fsmRun steps fuel
+        (if (trOpen (clearReceived (startState (stopFinish (f (stopBegin st)))))).1 = -1
+         then (trOpen (clearReceived (startState (stopFinish (f (stopBegin st)))))).2.change .errTransport
+         else (trOpen (clearReceived (startState (stopFinish (f (stopBegin st)))))).2.change .reset) := by
+  rw [fsmStart_first steps fuel _ (by show SState.closed ≠ SState.shutdown; decide)]
+  rw [restart_step _ rfl rfl]
+
 /-! ### non-vacuity -/
+
+/-- a thread that completes its synchronisation after the stop request (session 7, serial 5, time
+    stamp 1000 stored): the stop still ends with a Reset Query pending -/
+example : nextQuery (stopFinish ((fun s => { s with ss := { s.ss with session := 7, serial := 5, reqSession := false, lastUpdate := 1000 } })
+    (stopBegin {}))).ss = none := rfl
 
 example : nextQuery ({} : Sess) = none := rfl   -- a freshly initialised socket asks with a Reset Query
 example : nextQuery { session := 7, serial := 5, reqSession := false } = some (7, 5) := rfl
